@@ -1,4 +1,5 @@
 import AdfObdd.CliModes
+import AdfObdd.StoreLib
 /-! # A concrete, executable `CliM.World`: what the model driver runs `CliM.runText` with
 
 * the BDD library: truth tables (`Bio.ttLib`), every diagram TAGGED with the number of variables of
@@ -9,6 +10,9 @@ import AdfObdd.CliModes
 * the alphanumeric sort: `CliM.NatLex.anSort`, `natural_lexical_cmp` of crate `lexical-sort` 0.3.1
   (`cmp.rs`, `iter.rs`) written down, with the transliteration table of crate `any_ascii` for
   U+0080–U+00FF (checked against the crate for these 128 code points).
+
+A second world, `CliM.storeWorld`, takes the project's own ROBDD store as the library (it scales to
+the 65-130 statements of the `cliwide` runs, where truth tables do not).
 
 Definitions only (Mathlib-free, the driver imports this file); the laws are in `CliWorldProofs.lean`. -/
 namespace Bio
@@ -24,6 +28,7 @@ def Lib.tag {T K : Type} (L : Lib T) (k : K) : Lib (K × T) where
   isFalse := fun p => L.isFalse p.2
   select := fun p l => (k, L.select p.2 l)
   exist := fun p vs => (k, L.exist p.2 vs)
+  restrict := fun p l => (k, L.restrict p.2 l)
   and := fun p q => (k, L.and p.2 q.2)
   iff := fun p q => (k, L.iff p.2 q.2)
   satVals := fun p => L.satVals p.2
@@ -142,6 +147,15 @@ end NatLex
 def drvWorld : World (Nat × Nat) where
   lib := Bio.tagLib
   dump := fun p => Bio.ttDump p.1 p.2
+  anSort := NatLex.anSort
+
+/-- the world the driver runs BEYOND truth-table size (more than `Drv.ttLimit` statements): the
+project's own verified ROBDD store as the BDD library (`Bio.storeLib`, StoreLib.lean: diagrams are pairs
+(node table, handle); lawful for every `nv ≤ VBOT`, `Bio.storeLawful`), its node-table dump
+(`Bio.storeDump`: reduced, shared, satisfies `Bio.DumpSpec`), the same natural-lexical sort -/
+def storeWorld : World (Store × Nat) where
+  lib := Bio.storeLib
+  dump := Bio.storeDump
   anSort := NatLex.anSort
 
 end CliM
